@@ -330,7 +330,7 @@ _tag_re = re.compile(_tag)
 # A quoted string is any text char except quoted specials, unless they
 # are quoted (those are: " and \)
 #
-_quoted = r'"(([^\015\012\\"]|\\["\\])*)"'
+_quoted = r'"(([^\000\015\012\\"]|\\["\\])*)"'
 _quoted_re = re.compile(_quoted)
 _quoted_pair_re = re.compile(r'\\(["\\])')
 
@@ -2048,6 +2048,8 @@ class IMAPClientCommand:
         # our other mailbox names are case sensitive.
         #
         mbox_name = self._p_astring()
+        if "\0" in mbox_name:
+            raise BadSyntax(value="a mailbox name can not contain NUL")
         if mbox_name.lower() == "inbox":
             mbox_name = "inbox"
         if mbox_name != "":
